@@ -63,6 +63,7 @@ fn new_case(em: &mut Emitter, cls: u8, n: u32) {
                     oracle = Oracle::Fail("write-not-minimal".into());
                 } else if el != w0.len() { oracle = Oracle::Fail("encoded-len".into()); }
                 else if num != n || c != cls { oracle = Oracle::Fail("number-class".into()); }
+                else if [t.is_universal(), t.is_application(), t.is_context_specific(), t.is_private()] != [cls == 0, cls == 1, cls == 2, cls == 3] { oracle = Oracle::Fail("class-predicates".into()); }
                 else if let Some(what) = awkward_targets(&w1, 1 + (n as usize) % 3, &|tg| { let mut tg = tg; t.write_encoded(true, &mut tg) }) { oracle = Oracle::Fail(format!("identifier: {}", what)); }
                 else {
                     for (w, cons) in [(&w0, false), (&w1, true)] {
